@@ -218,121 +218,515 @@ fn spec_string(c: Civil, off: i32, zulu: bool) -> Vec<u8> {
     s.into_bytes()
 }
 
-fn main() {
-    std::env::set_var("TZ", "UTC");
-    lvh::drive(|x| {
-        let a = x.args();
-        match x.tag() {
-            Some("rt") => {
-                let n: Vec<i64> = a.iter().filter_map(|v| v.as_i64()).collect();
-                if n.len() != 7 {
-                    return (Sx::id("badcase"), "skip".into());
-                }
-                let c = Civil { y: n[0] as i32, mo: n[1] as u32, d: n[2] as u32, h: n[3] as u32, mi: n[4] as u32, s: n[5] as u32 };
-                let off = n[6] as i32;
-                let mut srcs: Vec<(&str, Option<Vec<u8>>, bool)> = vec![
-                    ("chrono", src_chrono_local(c, off), false),
-                    ("jiff", src_jiff_zoned(c, off), false),
-                    ("time", src_time(c, off), false),
-                ];
-                if off == 0 {
-                    srcs.push(("chronoz", src_chrono_utc(c), true));
-                    srcs.push(("jiffz", src_jiff_ts(c), true));
-                }
-                // oracle instant: every backend that can hold the value must agree on it
-                let mut instants = vec![];
-                if let Some(d) = chrono_fixed(c, off) {
-                    instants.push(d.timestamp());
-                }
-                if let Some(z) = jiff_zoned(c, off) {
-                    instants.push(z.timestamp().as_second());
-                }
-                if let Some(t) = time_odt(c, off) {
-                    instants.push(t.unix_timestamp());
-                }
-                let in_domain = (1..=9999).contains(&c.y) && off % 60 == 0 && off.abs() < 86400 && !instants.is_empty();
-                let mut verdict: Option<String> = None;
-                let mut fail = |m: String| {
-                    if verdict.is_none() {
-                        verdict = Some(m)
-                    }
-                };
-                if instants.iter().any(|t| *t != instants[0]) {
-                    fail(format!("backends disagree on the instant of the same civil time: {:?}", instants));
-                }
-                let mut out = vec![];
-                for (name, s, zulu) in &srcs {
-                    let mut item = vec![Sx::id("src"), Sx::id(name)];
-                    match s {
-                        None => item.push(Sx::id("unrep")),
-                        Some(bytes) => {
-                            item.push(Sx::bytes(bytes));
-                            let ps = parse_all(bytes);
-                            for (k, p) in ps.iter().enumerate() {
-                                item.push(p_sx(NAMES[k], p));
-                            }
-                            if in_domain {
-                                let want = spec_string(c, off, *zulu);
-                                if *bytes != want {
-                                    fail(format!(
-                                        "{} prints {:?}, the specification form is {:?}",
-                                        name,
-                                        String::from_utf8_lossy(bytes),
-                                        String::from_utf8_lossy(&want)
-                                    ));
-                                }
-                                for (k, p) in ps.iter().enumerate() {
-                                    // a backend that cannot hold the value at all is outside its domain
-                                    let holds = match k {
-                                        0 => chrono_fixed(c, off).is_some(),
-                                        1 => jiff_zoned(c, off).is_some(),
-                                        _ => time_odt(c, off).is_some(),
-                                    };
-                                    if !holds {
-                                        continue;
-                                    }
-                                    if let Some(m) = check_parsed(NAMES[k], name, p, instants[0], off, Some(c)) {
-                                        fail(m);
-                                    }
-                                }
-                            }
-                        }
-                    }
-                    out.push(Sx::L(item));
-                }
-                let v = match verdict {
-                    Some(m) => format!("FAIL {}", m),
-                    None if in_domain => "ok".into(),
-                    None => "skip".into(),
-                };
-                (Sx::tagged("rt", out), v)
+/// one case under the zone this process runs in (the parent forces UTC): result sx + direct verdict
+fn eval_case(x: &Sx) -> (Sx, String) {
+    let a = x.args();
+    match x.tag() {
+        Some("rt") => {
+            let n: Vec<i64> = a.iter().filter_map(|v| v.as_i64()).collect();
+            if n.len() != 7 {
+                return (Sx::id("badcase"), "skip".into());
             }
-            Some("parse") => {
-                let bytes = match a.first().and_then(|v| v.as_bytes()) {
-                    Some(b) => b,
-                    None => return (Sx::id("badcase"), "skip".into()),
-                };
-                let ps = parse_all(&bytes);
-                let res = Sx::tagged("parse", ps.iter().enumerate().map(|(k, p)| p_sx(NAMES[k], p)).collect());
-                let mut verdict = "skip".to_string();
-                if let Some(e) = a.get(1) {
-                    if e.tag() == Some("expect") {
-                        let t = e.args().first().and_then(|v| v.as_i64());
-                        let o = e.args().get(1).and_then(|v| v.as_i64());
-                        if let (Some(t), Some(o)) = (t, o) {
-                            verdict = "ok".into();
+            let c = Civil { y: n[0] as i32, mo: n[1] as u32, d: n[2] as u32, h: n[3] as u32, mi: n[4] as u32, s: n[5] as u32 };
+            let off = n[6] as i32;
+            let mut srcs: Vec<(&str, Option<Vec<u8>>, bool)> = vec![
+                ("chrono", src_chrono_local(c, off), false),
+                ("jiff", src_jiff_zoned(c, off), false),
+                ("time", src_time(c, off), false),
+            ];
+            if off == 0 {
+                srcs.push(("chronoz", src_chrono_utc(c), true));
+                srcs.push(("jiffz", src_jiff_ts(c), true));
+            }
+            // oracle instant: every backend that can hold the value must agree on it
+            let mut instants = vec![];
+            if let Some(d) = chrono_fixed(c, off) {
+                instants.push(d.timestamp());
+            }
+            if let Some(z) = jiff_zoned(c, off) {
+                instants.push(z.timestamp().as_second());
+            }
+            if let Some(t) = time_odt(c, off) {
+                instants.push(t.unix_timestamp());
+            }
+            let in_domain = (1..=9999).contains(&c.y) && off % 60 == 0 && off.abs() < 86400 && !instants.is_empty();
+            let mut verdict: Option<String> = None;
+            let mut fail = |m: String| {
+                if verdict.is_none() {
+                    verdict = Some(m)
+                }
+            };
+            if instants.iter().any(|t| *t != instants[0]) {
+                fail(format!("backends disagree on the instant of the same civil time: {:?}", instants));
+            }
+            let mut out = vec![];
+            for (name, s, zulu) in &srcs {
+                let mut item = vec![Sx::id("src"), Sx::id(name)];
+                match s {
+                    None => item.push(Sx::id("unrep")),
+                    Some(bytes) => {
+                        item.push(Sx::bytes(bytes));
+                        let ps = parse_all(bytes);
+                        for (k, p) in ps.iter().enumerate() {
+                            item.push(p_sx(NAMES[k], p));
+                        }
+                        if in_domain {
+                            let want = spec_string(c, off, *zulu);
+                            if *bytes != want {
+                                fail(format!(
+                                    "{} prints {:?}, the specification form is {:?}",
+                                    name,
+                                    String::from_utf8_lossy(bytes),
+                                    String::from_utf8_lossy(&want)
+                                ));
+                            }
                             for (k, p) in ps.iter().enumerate() {
-                                if let Some(m) = check_parsed(NAMES[k], "the specification", p, t, o as i32, None) {
-                                    verdict = format!("FAIL {}", m);
-                                    break;
+                                // a backend that cannot hold the value at all is outside its domain
+                                let holds = match k {
+                                    0 => chrono_fixed(c, off).is_some(),
+                                    1 => jiff_zoned(c, off).is_some(),
+                                    _ => time_odt(c, off).is_some(),
+                                };
+                                if !holds {
+                                    continue;
+                                }
+                                if let Some(m) = check_parsed(NAMES[k], name, p, instants[0], off, Some(c)) {
+                                    fail(m);
                                 }
                             }
                         }
                     }
                 }
-                (res, verdict)
+                out.push(Sx::L(item));
             }
-            _ => (Sx::id("badcase"), "skip".into()),
+            let v = match verdict {
+                Some(m) => format!("FAIL {}", m),
+                None if in_domain => "ok".into(),
+                None => "skip".into(),
+            };
+            (Sx::tagged("rt", out), v)
         }
+        Some("parse") => {
+            let bytes = match a.first().and_then(|v| v.as_bytes()) {
+                Some(b) => b,
+                None => return (Sx::id("badcase"), "skip".into()),
+            };
+            let ps = parse_all(&bytes);
+            let res = Sx::tagged("parse", ps.iter().enumerate().map(|(k, p)| p_sx(NAMES[k], p)).collect());
+            let mut verdict = "skip".to_string();
+            if let Some(e) = a.get(1) {
+                if e.tag() == Some("expect") {
+                    let t = e.args().first().and_then(|v| v.as_i64());
+                    let o = e.args().get(1).and_then(|v| v.as_i64());
+                    if let (Some(t), Some(o)) = (t, o) {
+                        verdict = "ok".into();
+                        for (k, p) in ps.iter().enumerate() {
+                            if let Some(m) = check_parsed(NAMES[k], "the specification", p, t, o as i32, None) {
+                                verdict = format!("FAIL {}", m);
+                                break;
+                            }
+                        }
+                    }
+                }
+            }
+            (res, verdict)
+        }
+        _ => (Sx::id("badcase"), "skip".into()),
+    }
+}
+
+// ------------------------------------------------------------------------------------------------------------------
+// The same cases under other PROCESS time zones.
+//
+// The parent process runs every case with TZ=UTC (above).  It also keeps one child per zone of ZONES: the same binary,
+// started with TZ=<zone> in its environment (POSIX TZ strings: no tz database needed) and LVH_C18_ZONE set, so that
+// the machine zone is what chrono's `Local` and jiff's system zone see from the first call on, in every thread.  Every
+// case line is sent to every child; a child answers with one `<sx> ||| <verdict>` line:
+//   (parse ..)  the three parsers on the same string: must be TEXTUALLY the parent's result (a date string denotes an
+//               instant and an offset by itself: no offset written = GMT, whatever the machine zone), and the child
+//               evaluates the generator's expectation itself;
+//   (rt ..)     the WRITERS under the machine zone: the case's instant T is turned into chrono `DateTime<Local>` and jiff
+//               `Zoned` in the system zone (the zone picks the offset; time `OffsetDateTime` gets chrono's offset), each is
+//               converted with `Object::from`, and the string must be the specification form of T at that offset (local
+//               fields by the harness's own calendar arithmetic), chrono and jiff must pick the same offset (for a
+//               zone without daylight saving: the zone's), and every parser must read every string back as T / that
+//               offset / those fields -- all inside the child, i.e. under the zone.
+// The parent's result sx is unchanged (so it stays comparable with the model, which has no machine zone) unless a child
+// deviates; then the child's answer is appended, which also breaks the correspondence.
+// ------------------------------------------------------------------------------------------------------------------
+
+/// (TZ string, offset in seconds east of Greenwich if the zone has a single one)
+const ZONES: [(&str, Option<i32>); 5] = [
+    ("JST-9", Some(9 * 3600)),
+    ("EST5", Some(-5 * 3600)),
+    ("NPT-5:45", Some(5 * 3600 + 45 * 60)),
+    // daylight saving, northern rule (US since 2007), switch at 02:00
+    ("EST5EDT,M3.2.0,M11.1.0", None),
+    // daylight saving, southern rule with the switch AT MIDNIGHT (Brazil until 2019): local midnight does not exist on
+    // the third Sunday of October
+    ("<-03>3<-02>,M10.3.0/0,M2.3.0/0", None),
+];
+
+fn days_from_civil(y: i64, m: i64, d: i64) -> i64 {
+    // proleptic Gregorian, days since 1970-01-01
+    let y = if m <= 2 { y - 1 } else { y };
+    let era = y.div_euclid(400);
+    let yoe = y - era * 400;
+    let mp = (m + 9) % 12;
+    let doy = (153 * mp + 2) / 5 + d - 1;
+    let doe = yoe * 365 + yoe / 4 - yoe / 100 + doy;
+    era * 146097 + doe - 719468
+}
+
+fn civil_from_days(z: i64) -> (i64, i64, i64) {
+    let z = z + 719468;
+    let era = z.div_euclid(146097);
+    let doe = z - era * 146097;
+    let yoe = (doe - doe / 1460 + doe / 36524 - doe / 146096) / 365;
+    let doy = doe - (365 * yoe + yoe / 4 - yoe / 100);
+    let mp = (5 * doy + 2) / 153;
+    let d = doy - (153 * mp + 2) / 5 + 1;
+    let m = if mp < 10 { mp + 3 } else { mp - 9 };
+    (yoe + era * 400 + if m <= 2 { 1 } else { 0 }, m, d)
+}
+
+fn own_instant(c: Civil, off: i32) -> i64 {
+    days_from_civil(c.y as i64, c.mo as i64, c.d as i64) * 86400 + c.h as i64 * 3600 + c.mi as i64 * 60 + c.s as i64 - off as i64
+}
+
+fn own_civil(t: i64, off: i32) -> Option<Civil> {
+    let l = t + off as i64;
+    let (y, m, d) = civil_from_days(l.div_euclid(86400));
+    let r = l.rem_euclid(86400);
+    if !(1..=9999).contains(&y) {
+        return None;
+    }
+    Some(Civil { y: y as i32, mo: m as u32, d: d as u32, h: (r / 3600) as u32, mi: (r / 60 % 60) as u32, s: (r % 60) as u32 })
+}
+
+/// offsets chrono's `Local` and jiff's system zone assign to an instant in THIS process
+fn zone_offsets(t: i64) -> (Option<i32>, Option<i32>) {
+    use chrono::{Offset, TimeZone};
+    let c = chrono::Local.timestamp_opt(t, 0).single().map(|l| l.offset().fix().local_minus_utc());
+    let j = match (jiff::Timestamp::from_second(t), jiff::tz::TimeZone::try_system()) {
+        (Ok(ts), Ok(tz)) => Some(tz.to_offset(ts).seconds()),
+        _ => None,
+    };
+    (c, j)
+}
+
+/// the writers under the machine zone (child side)
+fn zone_rt(x: &Sx, zone_off: Option<i32>) -> (Sx, String) {
+    use chrono::{Offset, TimeZone};
+    let n: Vec<i64> = x.args().iter().filter_map(|v| v.as_i64()).collect();
+    if n.len() != 7 {
+        return (Sx::id("badcase"), "skip".into());
+    }
+    let c = Civil { y: n[0] as i32, mo: n[1] as u32, d: n[2] as u32, h: n[3] as u32, mi: n[4] as u32, s: n[5] as u32 };
+    let off = n[6] as i32;
+    let valid = (1..=9999).contains(&c.y) && off % 60 == 0 && off.abs() < 86400 && time_odt(c, off).is_some();
+    if !valid {
+        return (Sx::id("zskip"), "skip".into());
+    }
+    let t = own_instant(c, off);
+    let mut verdict: Option<String> = None;
+    let mut fail = |m: String| {
+        if verdict.is_none() {
+            verdict = Some(m)
+        }
+    };
+    if time_odt(c, off).map(|d| d.unix_timestamp()) != Some(t) {
+        fail(format!("machinery: the harness calendar gives instant {}, time gives {:?}", t, time_odt(c, off).map(|d| d.unix_timestamp())));
+    }
+    let local = chrono::Local.timestamp_opt(t, 0).single();
+    let offc = local.as_ref().map(|l| l.offset().fix().local_minus_utc());
+    let zoned = match (jiff::Timestamp::from_second(t), jiff::tz::TimeZone::try_system()) {
+        (Ok(ts), Ok(tz)) => Some(ts.to_zoned(tz)),
+        _ => None,
+    };
+    let offj = zoned.as_ref().map(|z| z.offset().seconds());
+    if let (Some(a), Some(b)) = (offc, offj) {
+        if a != b {
+            fail(format!("machinery: chrono puts instant {} at offset {} in the machine zone, jiff at {}", t, a, b));
+        }
+    }
+    let zoff = match offc.or(offj) {
+        Some(o) => o,
+        None => return (Sx::id("zskip"), "skip".into()),
+    };
+    if let Some(zo) = zone_off {
+        if zo != zoff {
+            fail(format!("machinery: the machine zone has offset {}, chrono/jiff use {}", zo, zoff));
+        }
+    }
+    // local civil fields by the harness's own arithmetic; outside years 1..9999 the value is outside the property
+    let lc = match own_civil(t, zoff) {
+        Some(lc) => lc,
+        None => return (Sx::id("zskip"), "skip".into()),
+    };
+    let want = spec_string(lc, zoff, false);
+    let odt = time::OffsetDateTime::from_unix_timestamp(t).ok().and_then(|d| time::UtcOffset::from_whole_seconds(zoff).ok().map(|o| d.to_offset(o)));
+    let srcs: Vec<(&str, Option<Vec<u8>>)> = vec![
+        ("chrono", if offc == Some(zoff) { local.and_then(|l| obj_bytes(&Object::from(l))) } else { None }),
+        ("jiff", if offj == Some(zoff) { zoned.and_then(|z| obj_bytes(&Object::from(z))) } else { None }),
+        ("time", odt.and_then(|d| obj_bytes(&Object::from(d)))),
+    ];
+    let mut out = vec![Sx::num(zoff)];
+    let mut written = 0;
+    for (name, s) in &srcs {
+        let mut item = vec![Sx::id("src"), Sx::id(name)];
+        match s {
+            None => item.push(Sx::id("unrep")),
+            Some(bytes) => {
+                written += 1;
+                item.push(Sx::bytes(bytes));
+                if *bytes != want {
+                    fail(format!(
+                        "{} prints instant {} in the machine zone as {:?}, the specification form at offset {} is {:?}",
+                        name,
+                        t,
+                        String::from_utf8_lossy(bytes),
+                        zoff,
+                        String::from_utf8_lossy(&want)
+                    ));
+                }
+                let ps = parse_all(bytes);
+                for (k, p) in ps.iter().enumerate() {
+                    item.push(p_sx(NAMES[k], p));
+                    let holds = match k {
+                        0 => chrono_fixed(lc, zoff).is_some(),
+                        1 => jiff_zoned(lc, zoff).is_some(),
+                        _ => time_odt(lc, zoff).is_some(),
+                    };
+                    if !holds {
+                        continue;
+                    }
+                    if let Some(m) = check_parsed(NAMES[k], name, p, t, zoff, Some(lc)) {
+                        fail(m);
+                    }
+                }
+            }
+        }
+        out.push(Sx::L(item));
+    }
+    let v = match verdict {
+        Some(m) => format!("FAIL {}", m),
+        None if written > 0 => "ok".into(),
+        None => "skip".into(),
+    };
+    (Sx::tagged("zrt", out), v)
+}
+
+fn child_main(zone_off: Option<i32>) {
+    use std::io::Write;
+    // probe: what the two zone-aware back ends make of the machine zone in January and in July 2024
+    let (c1, j1) = zone_offsets(1704067200 + 14 * 86400);
+    let (c7, j7) = zone_offsets(1719792000 + 14 * 86400);
+    let show = |o: Option<i32>| o.map(|v| v.to_string()).unwrap_or_else(|| "none".into());
+    println!("ready {} {} {} {}", show(c1), show(j1), show(c7), show(j7));
+    std::io::stdout().flush().unwrap();
+    // the loop of lvh::drive, answering line by line (the parent waits for every answer)
+    std::panic::set_hook(Box::new(|_| {}));
+    let stdin = std::io::stdin();
+    let mut line = String::new();
+    loop {
+        line.clear();
+        match std::io::BufRead::read_line(&mut stdin.lock(), &mut line) {
+            Ok(n) if n > 0 => {}
+            _ => break,
+        }
+        let (res, verdict) = match lvh::sx::parse_one(line.trim_end()) {
+            None => (Sx::id("badline"), "skip".to_string()),
+            Some(x) => match std::panic::catch_unwind(|| match x.tag() {
+                Some("rt") => zone_rt(&x, zone_off),
+                _ => eval_case(&x),
+            }) {
+                Ok(r) => r,
+                Err(e) => {
+                    let msg = if let Some(s) = e.downcast_ref::<&str>() {
+                        s.to_string()
+                    } else if let Some(s) = e.downcast_ref::<String>() {
+                        s.clone()
+                    } else {
+                        "?".to_string()
+                    };
+                    (Sx::L(vec![Sx::id("panic"), Sx::bytes(msg.as_bytes())]), format!("FAIL panic: {}", msg.replace('\n', " ")))
+                }
+            },
+        };
+        println!("{} ||| {}", res.print(), verdict);
+        std::io::stdout().flush().unwrap();
+    }
+}
+
+struct ZoneChild {
+    tz: &'static str,
+    child: std::process::Child,
+    stdin: Option<std::process::ChildStdin>,
+    stdout: std::io::BufReader<std::process::ChildStdout>,
+    /// None = in order; Some(reason) = every case fails with it (the zone is not in effect: nothing would be tested)
+    broken: Option<String>,
+    // evidence counters
+    cases: u64,
+    parse_same: u64,
+    parse_expect_ok: u64,
+    writers_ok: u64,
+    writers_skip: u64,
+    failures: u64,
+}
+
+fn read_line(r: &mut impl std::io::BufRead) -> Option<String> {
+    let mut s = String::new();
+    match r.read_line(&mut s) {
+        Ok(n) if n > 0 => Some(s.trim_end_matches('\n').to_string()),
+        _ => None,
+    }
+}
+
+fn spawn_zones() -> Vec<ZoneChild> {
+    let exe = std::env::current_exe().expect("current_exe");
+    let mut v = vec![];
+    for (tz, zoff) in ZONES.iter() {
+        let mut cmd = std::process::Command::new(&exe);
+        cmd.env("TZ", tz)
+            .env("LVH_C18_ZONE", tz)
+            .env("LVH_C18_ZONE_OFF", zoff.map(|o| o.to_string()).unwrap_or_default())
+            .env_remove("LVH_C18_STATS")
+            .stdin(std::process::Stdio::piped())
+            .stdout(std::process::Stdio::piped())
+            .stderr(std::process::Stdio::null());
+        let mut child = cmd.spawn().expect("spawn zone child");
+        let stdin = child.stdin.take();
+        let mut stdout = std::io::BufReader::new(child.stdout.take().unwrap());
+        let hello = read_line(&mut stdout).unwrap_or_default();
+        let f: Vec<&str> = hello.split(' ').collect();
+        let mut broken = None;
+        if f.len() != 5 || f[0] != "ready" {
+            broken = Some(format!("the child process did not start ({:?})", hello));
+        } else {
+            let n: Vec<Option<i32>> = f[1..].iter().map(|s| s.parse().ok()).collect();
+            let ok = match zoff {
+                Some(o) => n.iter().all(|v| *v == Some(*o)),
+                None => n[0].is_some() && n[0] == n[1] && n[2].is_some() && n[2] == n[3] && n[0] != n[2],
+            };
+            if !ok {
+                broken = Some(format!("chrono / jiff do not see the zone: offsets chrono,jiff in January and July 2024 = {:?}", &f[1..]));
+            }
+        }
+        v.push(ZoneChild { tz, child, stdin, stdout, broken, cases: 0, parse_same: 0, parse_expect_ok: 0, writers_ok: 0, writers_skip: 0, failures: 0 });
+    }
+    v
+}
+
+/// send the case to every zone child, hold the answers against the parent's (UTC) result
+fn under_zones(zs: &mut [ZoneChild], x: &Sx, res: Sx, verdict: String) -> (Sx, String) {
+    use std::io::Write;
+    let is_parse = x.tag() == Some("parse");
+    let is_rt = x.tag() == Some("rt");
+    if !is_parse && !is_rt {
+        return (res, verdict);
+    }
+    let line = x.print();
+    for z in zs.iter_mut() {
+        if z.broken.is_none() {
+            let sent = match z.stdin.as_mut() {
+                Some(si) => writeln!(si, "{}", line).is_ok() && si.flush().is_ok(),
+                None => false,
+            };
+            if !sent {
+                z.broken = Some("the child process went away".into());
+            }
+        }
+    }
+    let mine = res.print();
+    let mut extra = vec![];
+    let mut bad: Option<String> = None;
+    for z in zs.iter_mut() {
+        z.cases += 1;
+        let ans = if z.broken.is_none() { read_line(&mut z.stdout) } else { None };
+        let ans = match ans {
+            Some(a) => a,
+            None => {
+                let why = z.broken.get_or_insert_with(|| "the child process went away".into()).clone();
+                z.failures += 1;
+                bad.get_or_insert(format!("machinery: nothing was run under TZ={}: {}", z.tz, why));
+                continue;
+            }
+        };
+        let (zsx, zv) = match ans.split_once(" ||| ") {
+            Some((a, b)) => (a.to_string(), b.to_string()),
+            None => (ans.clone(), "FAIL machinery: malformed answer".to_string()),
+        };
+        let mut dev: Option<String> = None;
+        if zv.starts_with("FAIL") {
+            dev = Some(format!("under TZ={}: {}", z.tz, &zv[5..]));
+        } else if is_parse && zsx != mine {
+            dev = Some(format!("the reading depends on the machine time zone: under TZ={} {}, under UTC {}", z.tz, zsx, mine));
+        }
+        match dev {
+            Some(m) => {
+                z.failures += 1;
+                let shown = lvh::sx::parse_one(&zsx).unwrap_or_else(|| Sx::bytes(zsx.as_bytes()));
+                extra.push(Sx::L(vec![Sx::id("zone"), Sx::bytes(z.tz.as_bytes()), shown]));
+                bad.get_or_insert(m);
+            }
+            None if is_parse => {
+                z.parse_same += 1;
+                if zv == "ok" {
+                    z.parse_expect_ok += 1;
+                }
+            }
+            None if zv == "ok" => z.writers_ok += 1,
+            None => z.writers_skip += 1,
+        }
+    }
+    let res = if extra.is_empty() {
+        res
+    } else {
+        let mut l = match res {
+            Sx::L(l) => l,
+            a => vec![a],
+        };
+        l.extend(extra);
+        Sx::L(l)
+    };
+    let verdict = match bad {
+        Some(m) if !verdict.starts_with("FAIL") => format!("FAIL {}", m),
+        _ => verdict,
+    };
+    (res, verdict)
+}
+
+fn main() {
+    if std::env::var_os("LVH_C18_ZONE").is_some() {
+        // zone child: TZ comes from the environment and is never touched
+        let zoff = std::env::var("LVH_C18_ZONE_OFF").ok().and_then(|s| s.parse().ok());
+        return child_main(zoff);
+    }
+    std::env::set_var("TZ", "UTC");
+    let zones = std::sync::Mutex::new(spawn_zones());
+    lvh::drive(|x| {
+        let (res, verdict) = eval_case(x);
+        let mut zs = zones.lock().unwrap_or_else(|e| e.into_inner());
+        under_zones(&mut zs, x, res, verdict)
     });
+    let mut zs = zones.into_inner().unwrap_or_else(|e| e.into_inner());
+    // per-zone evidence counters, one line per process (props/c18.py adds them up)
+    if let Some(path) = std::env::var_os("LVH_C18_STATS") {
+        use std::io::Write;
+        let mut line = String::new();
+        for z in zs.iter() {
+            line.push_str(&format!(
+                "{}\t{}\t{}\t{}\t{}\t{}\t{}\n",
+                z.tz, z.cases, z.parse_same, z.parse_expect_ok, z.writers_ok, z.writers_skip, z.failures
+            ));
+        }
+        if let Ok(mut f) = std::fs::OpenOptions::new().create(true).append(true).open(path) {
+            let _ = f.write_all(line.as_bytes());
+        }
+    }
+    for z in zs.iter_mut() {
+        drop(z.stdin.take());
+        let _ = z.child.wait();
+    }
 }
